@@ -21,11 +21,90 @@ class Intern:
         return self.m[s]
 
 
+def _suffix_min(keys: list, at: dict) -> dict:
+    """pos[k] = min over k' >= k of at[k'] (keys sorted ascending)"""
+    out: dict = {}
+    cur = None
+    for k in sorted(keys, reverse=True):
+        cur = at[k] if cur is None else min(cur, at[k])
+        out[k] = cur
+    return out
+
+
+def witness(events: list[dict]) -> dict:
+    """Where the hidden number-drawing steps of model D1 must have happened, computed from the whole stream.
+
+    Numbers are drawn from global counters in increasing order, each by the entity that later emits it; the draw lies
+    after that entity's previous emission and before the emission of the number.  Lazy placement — draw number m
+    immediately before the earliest emission of any number >= m of the same kind — is feasible whenever any placement is.
+    Returns {stream index: [hint lines to insert before that event]}.  An infeasible stream still gets hints (the model
+    then rejects it)."""
+    st_at: dict = {}
+    ids: dict = {}
+    sc_at: dict = {}
+    sp_at: dict = {}
+    sc_ev: dict = {}
+    sp_tr: dict = {}
+    for i, e in enumerate(events):
+        t = e['_type']
+        if t == 'OnStartTrace' and e['trace_no'] not in st_at:
+            st_at[e['trace_no']] = i
+            ids[e['trace_no']] = (e['thread_no'], e['task_no'])
+        elif t == 'OnStartTraceCall' and e['trace_call_no'] not in sc_at:
+            sc_at[e['trace_call_no']] = i
+            sc_ev[e['trace_call_no']] = e
+        elif t == 'OnStartPrompt' and e['prompt_no'] not in sp_at:
+            sp_at[e['prompt_no']] = i
+            sp_tr[e['prompt_no']] = e['trace_no']
+    pos_tr = _suffix_min(list(st_at), st_at)
+    # thread numbers: drawn by the first entity of each thread (program order within a thread = emission order)
+    first: dict = {}
+    for tno in sorted(st_at, key=lambda k: st_at[k]):
+        first.setdefault(ids[tno][0], tno)
+    pos_thr = _suffix_min(list(first), {th: pos_tr[tno] for th, tno in first.items()})
+    hints: dict = {}
+
+    def add(pos: int, prio: tuple, line: str) -> None:
+        hints.setdefault(pos, []).append((prio, line))
+    for tno in st_at:
+        th, ta = ids[tno]
+        ent = f"{th} {'-' if ta is None else ta}"
+        p_ids = pos_thr[th] if first[th] == tno else pos_tr[tno]
+        add(p_ids, (0, th, ta or 0), f'h ids {ent}')
+        add(pos_tr[tno], (1, tno, 0), f'h trace {ent}')
+    return {'hints': hints, 'pos_call': _suffix_min(list(sc_at), sc_at), 'pos_prompt': _suffix_min(list(sp_at), sp_at),
+            'sc_ev': sc_ev, 'sp_tr': sp_tr, 'add': add}
+
+
 def encode(events: list[dict]) -> list[str]:
-    """event dicts (child-side order) → protocol lines of `nlvmodel trace`"""
+    """event dicts (child-side order) → protocol lines of `nlvmodel trace`: one `e` line per event, preceded by the `h` lines
+    of the hidden steps (see `witness`)"""
     I = Intern()
-    out = ['reset']
+    w = witness(events)
+    pend: list = []      # (kind, number) whose hint must wait for interned values
+
+    def call_args(e: dict) -> str:
+        return f"{I(e['file_name'])} {e['line_no'] if e['line_no'] is not None else 0} {e.get('frame_object_id', 0) % 100000} {EVENTS.index(e['event']) if e['event'] in EVENTS else 9}"
+    # interning must follow stream order of the *events*; hints of a call carry the same interned values as its event,
+    # so intern file names in a first pass in the order the old encoding used (event order)
     for e in events:
+        if e['_type'] == 'OnStartTraceCall':
+            I(e['file_name'])
+        elif e['_type'] == 'OnStartPrompt':
+            I('T' + e['prompt_text'])
+        elif e['_type'] == 'OnEndPrompt' and e['command']:
+            I(e['command'])
+        elif e['_type'] == 'OnWriteStdout':
+            I('W' + e['text'])
+    for m, pos in w['pos_call'].items():
+        e = w['sc_ev'][m]
+        w['add'](pos, (2, m, 0), f"h call {e['trace_no']} {call_args(e)}")
+    for m, pos in w['pos_prompt'].items():
+        w['add'](pos, (3, m, 0), f"h prompt {w['sp_tr'][m]}")
+    out = ['reset']
+    for i, e in enumerate(events):
+        for _, line in sorted(w['hints'].get(i, [])):
+            out.append(line)
         t = e['_type']
         n = e.get('trace_no')
         if t == 'OnStartTrace':
@@ -33,7 +112,7 @@ def encode(events: list[dict]) -> list[str]:
         elif t == 'OnEndTrace':
             out.append(f'e et {n}')
         elif t == 'OnStartTraceCall':
-            out.append(f"e sc {n} {e['trace_call_no']} {I(e['file_name'])} {e['line_no']} {e.get('frame_object_id', 0) % 100000} {EVENTS.index(e['event']) if e['event'] in EVENTS else 9}")
+            out.append(f"e sc {n} {e['trace_call_no']} {call_args(e)}")
         elif t == 'OnEndTraceCall':
             out.append(f"e ec {n} {e['trace_call_no']}")
         elif t == 'OnStartCmdloop':
@@ -108,8 +187,8 @@ def grammar_oracle(events: list[dict], run_no: int, complete: bool = True) -> li
                 s.pop()
     if complete and st:
         errs.append(f'traces {sorted(st)} never ended')
-    if trace_order != sorted(trace_order) or len(set(trace_order)) != len(trace_order):
-        errs.append(f'trace numbers not unique/increasing in start order: {trace_order}')
+    if len(set(trace_order)) != len(trace_order):
+        errs.append(f'trace numbers not unique: {trace_order}')
     return errs
 
 
